@@ -40,11 +40,22 @@ pub fn child_main(spec: &str) {
     let mut corpus_name = String::new();
     if job == "bmc-corpus" {
         // a shipped design: conversations with long runs (tens of kB) of commands that bear no response
-        let files: Vec<std::path::PathBuf> = super::c11::corpus_files().into_iter().filter(|p| std::fs::metadata(p).map(|m| m.len() > 8_000 && m.len() < 60_000).unwrap_or(false)).collect();
+        let files: Vec<std::path::PathBuf> = super::c11::corpus_files().into_iter().filter(|p| std::fs::metadata(p).map(|m| m.len() > 20_000 && m.len() < 250_000).unwrap_or(false)).collect();
         let path = &files[(seed as usize) % files.len().max(1)];
         ctx = Context::default();
         match std::fs::read_to_string(path).ok().and_then(|t| patronus::btor2::parse_str(&mut ctx, &t, Some("corpus"))) {
-            Some(s) => sys = s,
+            Some(mut s) => {
+                if s.bad_states.is_empty() {
+                    // many of the larger designs carry no property: watch one bit of an output or a register
+                    use patronus::expr::TypeCheck;
+                    let probe = s.outputs.iter().map(|o| o.expr).chain(s.states.iter().map(|st| st.symbol)).find(|e| e.get_type(&ctx).is_bit_vector());
+                    if let Some(e) = probe {
+                        let b = ctx.slice(e, 0, 0);
+                        s.bad_states.push(b);
+                    }
+                }
+                sys = s
+            }
             None => {
                 println!("C15RESULT {}", json!({"verdict": "error", "text": "corpus file not readable", "system": ""}));
                 return;
@@ -77,6 +88,7 @@ fn run_bmc_no_server(ctx: &mut Context, sys: &patronus::system::TransitionSystem
     let _ = (workdir, tag);
     match util::catch(|| {
         let mut smt_ctx = solver.start(None).map_err(|e| format!("{e}"))?;
+        shrink_pipes();
         let r = patronus::mc::bmc(ctx, &mut smt_ctx, sys, false, cfg.individually, cfg.k_max).map_err(|e| format!("{e}"));
         drop(smt_ctx);
         r
@@ -86,6 +98,23 @@ fn run_bmc_no_server(ctx: &mut Context, sys: &patronus::system::TransitionSystem
         Ok(Ok(patronus::mc::ModelCheckResult::Success)) => Verdict::Success,
         Ok(Ok(patronus::mc::ModelCheckResult::Unknown)) => Verdict::Unknown,
         Ok(Ok(patronus::mc::ModelCheckResult::Fail(w))) => Verdict::Fail(w),
+    }
+}
+
+/// with C15_SMALL_PIPES set: every pipe of this process (the two to the solver just started among them) is shrunk to
+/// one page, so that the client cannot write far ahead of what the solver has read - a solver that dies at some
+/// command is then really gone when the following commands are written
+fn shrink_pipes() {
+    if std::env::var("C15_SMALL_PIPES").is_err() {
+        return;
+    }
+    if let Ok(rd) = std::fs::read_dir("/proc/self/fd") {
+        for e in rd.flatten() {
+            let is_pipe = std::fs::read_link(e.path()).map(|l| l.to_string_lossy().starts_with("pipe:")).unwrap_or(false);
+            if let (true, Ok(fd)) = (is_pipe, e.file_name().to_string_lossy().parse::<i32>()) {
+                unsafe { libc::fcntl(fd, libc::F_SETPIPE_SZ, 4096) };
+            }
+        }
     }
 }
 
@@ -372,9 +401,13 @@ fn run_child(sh: &Shard, spec: &str, fault: Option<(&str, u64)>, counter: &std::
     let mut cmd = std::process::Command::new(exe);
     cmd.arg("C15").arg("--child").arg(spec).env("C15_WORKDIR", &sh.workdir).env("REFSOLVER_COUNTER", counter).env_remove("REFSOLVER_LOG").stdin(std::process::Stdio::null()).stdout(std::process::Stdio::piped()).stderr(std::process::Stdio::null());
     cmd.env_remove("REFSOLVER_CMD_FAULT");
+    cmd.env_remove("REFSOLVER_PIPE_SZ");
+    cmd.env_remove("C15_SMALL_PIPES");
     match fault {
         Some((k, n)) if k.starts_with("cmd-") => {
             cmd.env_remove("REFSOLVER_FAULT");
+            cmd.env("REFSOLVER_PIPE_SZ", "4096");
+            cmd.env("C15_SMALL_PIPES", "1");
             cmd.env("REFSOLVER_CMD_FAULT", format!("{k}@{n}"));
         }
         Some((k, n)) => {
@@ -453,7 +486,7 @@ impl Check for C15 {
         "fault_runs"
     }
     fn rule(&self) -> String {
-        format!("jobs = BMC (k=3; all bad states at once, or one at a time), PDR (jobs on profiles with unsat cores are chosen such that the run really asks for a core) and a direct SolverContext session (declare/assert/check-sat/get-value/push/pop/check-sat-assuming/get-unsat-assumptions/restart) on generated systems, each under one of the four solver profiles; a fault-free run counts the N response-bearing points of the conversation (check-sat, check-sat-assuming, get-value, get-unsat-assumptions; counted across restart() through a shared counter file); then for EVERY position n < N and EVERY fault kind of {:?} the job is re-run in a child process with the fault armed in the reference solver. Oracle: the call must return an error (or Unknown) - never Success/Fail, never a panic; for error replies the returned text must contain the injected message as one contiguous piece; the child must return within 1000 x fault-free time (clamped to 12..60 s), otherwise /proc is inspected: solver process gone or cpu burning = hang (violation), solver alive and idle = inconclusive. Commands that bear no response (declare/define/assert/push/pop/set-*) get three more fault kinds {:?} at the first, the last-before-a-response and 3 (thorough 10) random positions, plus one position after the last response: before the last response the call must not report Success/Fail and must carry the message the solver printed; after it only no-hang/no-panic is demanded. Mode unknown: BMC and PDR jobs run in-process through a SolverContext (an implementation of the public trait around the real text-protocol context) that answers Unknown to exactly one satisfiability query, for EVERY query of the conversation in turn - the text protocol itself turns the word `unknown` into an error before the engines see it, so this is the only way their Unknown handling is reached. An engine may carry on after an undecided query only soundly: no panic, a definite verdict must be the fault-free one (BMC jobs are mostly failing systems, where taking `unknown` for `unsat` loses the counterexample), and the frame traces of PDR (hook H3) must still satisfy the invariants of C10 on the explicit state space. One job in seven is BMC (k=2) on a shipped design of 8-60 kB (long runs of answerless commands). distinct_nontrivial = distinct (job, position, kind) triples executed.", FAULT_KINDS, CMD_FAULT_KINDS)
+        format!("jobs = BMC (k=3; all bad states at once, or one at a time), PDR (jobs on profiles with unsat cores are chosen such that the run really asks for a core) and a direct SolverContext session (declare/assert/check-sat/get-value/push/pop/check-sat-assuming/get-unsat-assumptions/restart) on generated systems, each under one of the four solver profiles; a fault-free run counts the N response-bearing points of the conversation (check-sat, check-sat-assuming, get-value, get-unsat-assumptions; counted across restart() through a shared counter file); then for EVERY position n < N (a sample of positions for the job on a shipped design) and EVERY fault kind of {:?} the job is re-run in a child process with the fault armed in the reference solver. Oracle: the call must return an error (or Unknown) - never Success/Fail, never a panic; for error replies the returned text must contain the injected message as one contiguous piece; the child must return within 1000 x fault-free time (clamped to 12..60 s), otherwise /proc is inspected: solver process gone or cpu burning = hang (violation), solver alive and idle = inconclusive. Commands that bear no response (declare/define/assert/push/pop/set-*) get three more fault kinds {:?} at the first, the last-before-a-response and 3 (thorough 10) random positions, plus one position after the last response: before the last response the call must not report Success/Fail and must carry the message the solver printed; after it only no-hang/no-panic is demanded. Mode unknown: BMC and PDR jobs run in-process through a SolverContext (an implementation of the public trait around the real text-protocol context) that answers Unknown to exactly one satisfiability query, for EVERY query of the conversation in turn - the text protocol itself turns the word `unknown` into an error before the engines see it, so this is the only way their Unknown handling is reached. An engine may carry on after an undecided query only soundly: no panic, a definite verdict must be the fault-free one (BMC jobs are mostly failing systems, where taking `unknown` for `unsat` loses the counterexample), and the frame traces of PDR (hook H3) must still satisfy the invariants of C10 on the explicit state space. One job in seven is BMC (k=2) on a shipped design of 20-250 kB whose conversation has a run of at least 24 kB of answerless commands between two responses; two of the fault positions lie early in the longest such run, and for these faults the pipe into the solver is shrunk to 4 kB so that the client cannot have written the rest of the run before the solver dies. distinct_nontrivial = distinct (job, position, kind) triples executed.", FAULT_KINDS, CMD_FAULT_KINDS)
     }
     fn assumptions(&self) -> Vec<String> {
         vec!["every injected fault hits a response the job really waits for (positions are enumerated from a fault-free run of the same deterministic job)".into()]
@@ -498,7 +531,21 @@ impl Check for C15 {
             // an individual-mode BMC job if several bad states are checked after one another
             let wants_core = job == "pdr" && persona != "yices-smt2";
             let has_core = kinds.iter().any(|k| k == "get-unsat-assumptions");
-            if base.hang.is_none() && (base.verdict == "success" || base.verdict == "fail") && n >= 2 && n <= sh.tier.pick(40, 80) && kinds.len() as u64 == n && (!wants_core || has_core) {
+            // the job on a shipped design is there for its long runs of commands that bear no response
+            let long_run_ok = job != "bmc-corpus" || {
+                let (mut best, mut cur) = (0u64, 0u64);
+                for t in seq.split_whitespace() {
+                    match t.strip_prefix('C') {
+                        Some(len) => cur += len.parse::<u64>().unwrap_or(0) + 1,
+                        None => {
+                            best = best.max(cur);
+                            cur = 0;
+                        }
+                    }
+                }
+                best >= 24 * 1024
+            };
+            if base.hang.is_none() && (base.verdict == "success" || base.verdict == "fail") && n >= 2 && n <= if job == "bmc-corpus" { 2000 } else { sh.tier.pick(40, 80) } && kinds.len() as u64 == n && (!wants_core || has_core) && long_run_ok {
                 chosen = Some((spec, base, n, kinds, seq));
                 break;
             }
@@ -511,8 +558,22 @@ impl Check for C15 {
         sh.hist("jobs_by_kind", &format!("{job}|{persona}"));
         sh.count("response_points", npoints);
         let budget = Duration::from_secs_f64((base.wall.as_secs_f64() * 1000.0).clamp(12.0, 60.0));
-        for n in 0..npoints {
+        // conversations on shipped designs have hundreds of response points (one get-value per register): sampled there
+        let mut points: Vec<u64> = (0..npoints).collect();
+        if job == "bmc-corpus" && npoints > 8 {
+            rng.shuffle(&mut points);
+            points.truncate(sh.tier.pick(1, 12));
+            points.push(0);
+            points.push(npoints - 1);
+            points.sort();
+            points.dedup();
+        }
+        for n in points {
             for kind in FAULT_KINDS {
+                // (a run on a shipped design takes seconds: four representative kinds in the quick tier)
+                if job == "bmc-corpus" && sh.tier == Tier::Quick && !["error-len-40", "unknown", "truncated-then-exit", "exit-silently"].contains(kind) {
+                    continue;
+                }
                 let o = run_child(sh, &spec, Some((kind, n)), &counter, budget);
                 sh.count("fault_runs", 1);
                 sh.hist("fault_runs_by_job_and_point", &format!("{job} @ {}", kinds[n as usize]));
@@ -557,15 +618,43 @@ impl Check for C15 {
         }
         // faults at commands that bear no response (declarations, definitions, assertions, push/pop): the solver
         // reports an error and carries on (z3 does), reports an error and dies, or just dies
-        let ncmds = seq.bytes().filter(|b| *b == b'C').count() as u64;
-        let before_last_response = seq.rfind('R').map(|p| seq[..p].bytes().filter(|b| *b == b'C').count() as u64).unwrap_or(0);
+        let toks: Vec<&str> = seq.split_whitespace().collect();
+        let ncmds = toks.iter().filter(|t| t.starts_with('C')).count() as u64;
+        let before_last_response = toks.iter().rposition(|t| *t == "R").map(|p| toks[..p].iter().filter(|t| t.starts_with('C')).count() as u64).unwrap_or(0);
         sh.count("answerless_commands_in_fault_free_runs", ncmds);
+        // the longest run (in bytes) of such commands between two responses: (first command index, commands, bytes)
+        let mut longest = (0u64, 0u64, 0u64);
+        {
+            let (mut idx, mut start, mut n, mut bytes) = (0u64, 0u64, 0u64, 0u64);
+            for t in toks.iter() {
+                if let Some(len) = t.strip_prefix('C') {
+                    if n == 0 {
+                        start = idx;
+                    }
+                    n += 1;
+                    bytes += len.parse::<u64>().unwrap_or(0) + 1;
+                    idx += 1;
+                } else {
+                    if bytes > longest.2 && start < before_last_response {
+                        longest = (start, n, bytes);
+                    }
+                    n = 0;
+                    bytes = 0;
+                }
+            }
+        }
+        sh.hist("longest_run_of_answerless_commands_kB", &format!("{job}: {:>3} kB", longest.2 / 1024));
         let mut positions: Vec<u64> = vec![];
         if before_last_response > 0 {
             positions.push(0);
             positions.push(before_last_response - 1);
-            for _ in 0..sh.tier.pick(3, 10) {
+            for _ in 0..if job == "bmc-corpus" { sh.tier.pick(1, 6) } else { sh.tier.pick(3, 10) } {
                 positions.push(rng.below(before_last_response));
+            }
+            // early in the longest run: everything the client writes afterwards goes to a solver that is gone
+            if longest.1 > 4 {
+                positions.push(longest.0);
+                positions.push(longest.0 + longest.1 / 8);
             }
         }
         if ncmds > before_last_response {
